@@ -562,6 +562,15 @@ func (st *State) execBlock(fr *Frame, b *ssa.BasicBlock, prev *ssa.BasicBlock) {
 		return
 	}
 	u := st.u
+	// ghost updates of loops: whenever control leaves a loop's body (to the head again, or out of the loop), but not
+	// when the head itself ends the loop
+	if prev != nil {
+		for _, ol := range st.loopsFor(fr) {
+			if ol.spec != nil && len(ol.spec.Ghost) > 0 && ol.fn == fr.fn && ol.body[prev] && prev != ol.head && (b == ol.head || !ol.body[b]) {
+				st.loopGhost(fr, ol)
+			}
+		}
+	}
 	// loop head handling (only for loops of the frame's function)
 	if li := st.loopAt(fr, b); li != nil {
 		if st.opened[b] {
@@ -572,6 +581,9 @@ func (st *State) execBlock(fr *Frame, b *ssa.BasicBlock, prev *ssa.BasicBlock) {
 			return
 		}
 		st.bindPhis(fr, b, prev)
+		if li.spec != nil && len(li.spec.Ghost) > 0 {
+			st.loopGhost(fr, li)
+		}
 		st.loopEntry[b] = st.snapshot()
 		st.checkInvariant(fr, li, "entry")
 		st.opened[b] = true
@@ -951,6 +963,26 @@ func countedFrom(p *ssa.Phi) (*Term, bool) {
 	return lo, lo != nil && step
 }
 
+// loopGhost performs the ghost assignments of a loop specification with the current values of the locals (the
+// latest value assigned to each source-level local on this path, not the loop-head phi).
+func (st *State) loopGhost(fr *Frame, li *loopInfo) {
+	env := st.loopEnv(fr, li)
+	for name, d := range fr.dbg {
+		if !d.isAddr {
+			env.vars[name] = envVar{d.v, d.t}
+		}
+	}
+	for _, g := range li.spec.Ghost {
+		var args []*Term
+		for _, a := range g.Args {
+			v, _ := st.elab(env, a)
+			args = append(args, st.scalar(v))
+		}
+		v, _ := st.elab(env, g.Value)
+		st.ghostSet(g.Name, args, st.scalar(v))
+	}
+}
+
 func (st *State) assumeInvariant(fr *Frame, li *loopInfo) {
 	// automatic facts: range index >= -1
 	for _, in := range li.head.Instrs {
@@ -1033,6 +1065,11 @@ func (st *State) havocLoop(fr *Frame, li *loopInfo) {
 	}
 	if os.Getenv("GOVC_DEBUG") != "" {
 		fmt.Fprintf(os.Stderr, "LOOP-HAVOC %s loop %d: all=%v %v\n", st.u.name, li.ordinal, all, pats)
+	}
+	if li.spec != nil {
+		for _, g := range li.spec.Ghost {
+			pats = append(pats, "S:"+g.Name)
+		}
 	}
 	if all {
 		st.havoc(nil, nil)
